@@ -14,3 +14,11 @@ claim("C12", "DESIGN.md 5/C12",
       "Lean 4 small-step model of what a session holds + theorems that the dispatcher's finally releases everything from every state outside three proved crash points + exhaustive cut sweep (peer vanish / server.close() at every loop iteration of every corpus script, gates inside backend calls and listener start-up) on the real server under a simulated network, ledger compared with the model's prediction",
       "The theorem is about the model's resources for all states; the sweep is exhaustive over the corpus at loop-iteration granularity and compares the real ledger with the model at every cut; three crash points are recorded findings.",
       "Trusted: Lean kernel; in-memory transports for sockets; asyncio cancellation semantics; finite backend delays.")
+claim("C04", "DESIGN.md 5/C04",
+      "Lean 4 theorems on a transcription of User.get_permissions / PathPermissions (nearest ancestor, first of ties, default) for all tables and paths + decision over the regenerated decorator table (which verb asks for which permission) + alias corollary of the C02 theorems + differential run against the live get_permissions and the live PathPermissions instances",
+      "nearest / permGuard_spec / alias_same_entry are unbounded and kernel-checked; perm_table is re-decided against the current source on every run; the refusal's effect on tree and cwd (wire level) is carried by the C05 session correspondence, not by a theorem here.",
+      "Trusted: Lean kernel; pathlib.relative_to and builtin min as transcribed (sampled); translator.")
+claim("C20", "DESIGN.md 5/C20",
+      "Lean 4 noninterference theorems on a model of every log record both sides emit (server parse_command censoring, reply echo, client command/parse_line) + decision that the set of logging call sites in the source equals the modelled one + canary differential run with a capturing log handler on real client/server",
+      "server/client/session noninterference hold for all passwords of equal (rstripped) length; call_sites is re-decided against the current source; the canary run scans every formatted record including tracebacks.",
+      "Trusted: Lean kernel; 'login' means PASS<SP>pw on one decodable line without LF (LF injection is a recorded finding); MemoryUserManager.")
